@@ -769,21 +769,82 @@ func vC03ObsPkt(pk Packet, err error, panicked bool) vSx {
 	return vOk(vC03PktSx(vC03DumpPkt(pk)), vI(pk.Size()), vB(b))
 }
 
+// The outstanding-request table is internal state; it is read through reflection by field NAME
+// only (input.transactions), whatever its key and value types are: a key is converted to the
+// float64 it stands for, a value to its text.  (Read-only; the harness is single-threaded.)
+type vC03Ent struct {
+	key  float64
+	name string
+}
+
+func vC03NumOf(v reflect.Value) float64 {
+	switch v.Kind() {
+	case reflect.Float32, reflect.Float64:
+		return v.Float()
+	case reflect.Int, reflect.Int8, reflect.Int16, reflect.Int32, reflect.Int64:
+		return float64(v.Int())
+	case reflect.Uint, reflect.Uint8, reflect.Uint16, reflect.Uint32, reflect.Uint64, reflect.Uintptr:
+		return float64(v.Uint())
+	case reflect.String:
+		var f float64
+		if _, err := fmt.Sscan(v.String(), &f); err == nil {
+			return f
+		}
+	case reflect.Interface, reflect.Ptr:
+		if !v.IsNil() {
+			return vC03NumOf(v.Elem())
+		}
+	}
+	return math.NaN()
+}
+
+func vC03TextOf(v reflect.Value) string {
+	switch v.Kind() {
+	case reflect.String:
+		return v.String()
+	case reflect.Slice:
+		if v.Type().Elem().Kind() == reflect.Uint8 {
+			b := make([]byte, v.Len())
+			for i := range b {
+				b[i] = byte(v.Index(i).Uint())
+			}
+			return string(b)
+		}
+	case reflect.Interface, reflect.Ptr:
+		if !v.IsNil() {
+			return vC03TextOf(v.Elem())
+		}
+	case reflect.Struct:
+		// e.g. a record holding the name: the first string field
+		for i := 0; i < v.NumField(); i++ {
+			if v.Field(i).Kind() == reflect.String {
+				return v.Field(i).String()
+			}
+		}
+	}
+	return "?"
+}
+
+func vC03Table(p *Protocol) []vC03Ent {
+	m := reflect.ValueOf(p).Elem().FieldByName("input").FieldByName("transactions")
+	for m.IsValid() && (m.Kind() == reflect.Ptr || m.Kind() == reflect.Interface) && !m.IsNil() {
+		m = m.Elem()
+	}
+	if !m.IsValid() || m.Kind() != reflect.Map {
+		return []vC03Ent{{math.NaN(), "table-not-found"}}
+	}
+	es := []vC03Ent{}
+	for _, k := range m.MapKeys() {
+		es = append(es, vC03Ent{vC03NumOf(k), vC03TextOf(m.MapIndex(k))})
+	}
+	sort.Slice(es, func(i, j int) bool { return math.Float64bits(es[i].key) < math.Float64bits(es[j].key) })
+	return es
+}
+
 func vC03TxSx(p *Protocol) vSx {
-	type ent struct {
-		k uint64
-		v string
-	}
-	p.input.ltransactions.Lock()
-	es := []ent{}
-	for k, v := range p.input.transactions {
-		es = append(es, ent{vC03Bits(k), string(v)})
-	}
-	p.input.ltransactions.Unlock()
-	sort.Slice(es, func(i, j int) bool { return es[i].k < es[j].k })
 	items := []vSx{}
-	for _, e := range es {
-		items = append(items, vL(vU(e.k), vS(e.v)))
+	for _, e := range vC03Table(p) {
+		items = append(items, vL(vU(math.Float64bits(e.key)), vS(e.name)))
 	}
 	return vLs(items)
 }
@@ -1021,12 +1082,12 @@ func vC03RunConv(c vSx, res *vC03Res) {
 			}
 			// the message stream id the caller gave and the chunk stream the packet type prefers
 			// (2 for protocol control, 3 for commands over the connection)
-			wantCid := chunkID(3)
+			wantCid := uint64(3)
 			if p.kind >= 7 {
 				wantCid = 2
 			}
-			if m.streamID != uint32(sid) || m.betterCid != wantCid || m.Timestamp != 0 {
-				res.bad("wire", fmt.Sprintf("burst %d packet %d: arrived on stream %d chunk stream %d timestamp %d, written for stream %d chunk stream %d", bi, j, m.streamID, m.betterCid, m.Timestamp, uint32(sid), wantCid))
+			if gs, gc := vC03MsgField(m, "streamID"), vC03MsgField(m, "betterCid"); gs != uint64(uint32(sid)) || gc != wantCid || m.Timestamp != 0 {
+				res.bad("wire", fmt.Sprintf("burst %d packet %d: arrived on stream %d chunk stream %d timestamp %d, written for stream %d chunk stream %d", bi, j, gs, gc, m.Timestamp, uint32(sid), wantCid))
 			}
 			pk, err, pan := vC03Decode(rcv, m.MessageType, m.Payload)
 			outs = append(outs, vC03ObsPkt(pk, err, pan))
@@ -1051,8 +1112,8 @@ func vC03RunConv(c vSx, res *vC03Res) {
 		}
 		if !readFailed {
 			readObs = vOk(vLs(outs))
-			if buf.Len() != 0 || rcv.r.Buffered() != 0 {
-				res.bad("wire", fmt.Sprintf("burst %d: %d bytes of the burst were not consumed", bi, buf.Len()+rcv.r.Buffered()))
+			if left := buf.Len() + vC03Buffered(rcv); left != 0 {
+				res.bad("wire", fmt.Sprintf("burst %d: %d bytes of the burst were not consumed", bi, left))
 			}
 		}
 		out = append(out, vL(vB(wire), vLs(flags), readObs, vC03TxSx(a), vC03TxSx(b)))
@@ -1375,18 +1436,55 @@ func vC03PeekCommand(mt MessageType, p []byte) (name string, tid float64, ok boo
 	return string(p[3 : 3+n]), math.Float64frombits(bits), true
 }
 
+// the concrete table must BE the abstract map: the same ids (float equality, so 1 and 1.5, 2^53
+// and 2^53+2, 4294967296 and 4294967296.5 are different ids) with the same request names
 func vC03CmpTable(p *Protocol, a *vC03Abs) string {
-	p.input.ltransactions.Lock()
-	defer p.input.ltransactions.Unlock()
-	if len(p.input.transactions) != len(a.ents) {
-		return fmt.Sprintf("table has %d entries, %d requests are outstanding", len(p.input.transactions), len(a.ents))
+	tbl := vC03Table(p)
+	if len(tbl) != len(a.ents) {
+		return fmt.Sprintf("table has %d entries, %d requests are outstanding", len(tbl), len(a.ents))
 	}
 	for _, e := range a.ents {
-		if v, ok := p.input.transactions[amf0.Number(e.tid)]; !ok || string(v) != e.name {
+		found := false
+		for _, t := range tbl {
+			if t.key == e.tid && t.name == e.name {
+				found = true
+			}
+		}
+		if !found {
 			return fmt.Sprintf("outstanding request tid %v (%s) is not in the table", e.tid, e.name)
 		}
 	}
 	return ""
+}
+
+// bytes the endpoint's reader has taken from the transport but not yet consumed (field r, any
+// type with a Buffered method)
+func vC03Buffered(p *Protocol) int {
+	f := reflect.ValueOf(p).Elem().FieldByName("r")
+	if !f.IsValid() {
+		return 0
+	}
+	mth := f.MethodByName("Buffered")
+	if !mth.IsValid() {
+		return 0
+	}
+	defer func() { recover() }()
+	return int(mth.Call(nil)[0].Int())
+}
+
+// integer value of an unexported numeric field of a message, by name
+func vC03MsgField(m *Message, name string) uint64 {
+	f := reflect.ValueOf(m).Elem().FieldByName(name)
+	if !f.IsValid() {
+		return math.MaxUint64
+	}
+	switch f.Kind() {
+	case reflect.Int, reflect.Int8, reflect.Int16, reflect.Int32, reflect.Int64:
+		return uint64(f.Int())
+	case reflect.Uint, reflect.Uint8, reflect.Uint16, reflect.Uint32, reflect.Uint64:
+		return f.Uint()
+	}
+	return math.MaxUint64
 }
 
 // write the messages of a case on endpoint b; returns (type, payload, packet or nil) per message
@@ -2013,7 +2111,22 @@ func vC03GenRaw(r *vRng) vSx {
 	return vL(vZ(1), vI(kind), vU(vC03GenBits(r)), vB(vC03GenPayload(r, kind)))
 }
 
-var vC03TidPool = []uint64{0, 1 << 63, vC03One, vC03Two, 0xBFF0000000000000 /* -1 */, 0x4340000000000000 /* 2^53 */, 0x7ff8000000000001, 0x4008000000000000 /* 3 */, 0x7ff0000000000000, 1}
+var vC03TidPool = []uint64{0, 1 << 63, vC03One, vC03Two, 0xBFF0000000000000 /* -1 */, 0x4340000000000000 /* 2^53 */, 0x7ff8000000000001, 0x4008000000000000 /* 3 */, 0x7ff0000000000000, 1,
+	0x3FF8000000000000 /* 1.5 */, 0x4004000000000000 /* 2.5 */, 0x3FE0000000000000 /* 0.5 */, 0xBFE0000000000000, /* -0.5 */
+	0x3E112E0BE826D695 /* 1e-9 */, 0x4340000000000001 /* 2^53+2 */, 0x41F0000000000000 /* 2^32 */, 0x41F0000000080000, /* 2^32+0.5 */
+	0x3FF0000000000001 /* 1+2^-52 */, 0x43E0000000000000 /* 2^63 */, 0x7FEFFFFFFFFFFFFF /* max */, 0xFFF0000000000000 /* -Inf */}
+
+// groups of transaction ids that are different ids but collide after truncation, rounding, a
+// narrower integer type or saturation
+var vC03Collide = [][]uint64{
+	{vC03One, 0x3FF8000000000000, 0x3FF0000000000001},                   // 1, 1.5, 1+2^-52
+	{vC03Two, 0x4004000000000000},                                       // 2, 2.5
+	{0x3FE0000000000000, 0x3E112E0BE826D695, 1},                         // 0.5, 1e-9, smallest subnormal (all truncate to 0)
+	{0x4340000000000000, 0x4340000000000001},                            // 2^53, 2^53+2
+	{0x41F0000000000000, 0x41F0000000080000, 0x3FF0000000000000},        // 2^32, 2^32+0.5, 1 (uint32 wrap of 2^32+1 is 1)
+	{0x43E0000000000000, 0x7FEFFFFFFFFFFFFF, 0x7ff0000000000000},        // 2^63, max, +Inf (int64 saturation)
+	{0x4008000000000000, 0x400C000000000000, 0x4004000000000000},        // 3, 3.5, 2.5 (round to 3 / 4 / 2)
+}
 
 func vC03GenTid(r *vRng) uint64 {
 	if r.chance(1, 12) {
@@ -2056,7 +2169,65 @@ func vC03GenHistPkt(r *vRng) *vC03Pkt {
 	return p
 }
 
+// several requests outstanding at once whose ids collide after truncation / rounding, answered
+// in any order, also with ids that were never sent but collide with one that was
+func vC03GenHistCollide(r *vRng) vSx {
+	var es []vSx
+	g := vC03Collide[r.intn(len(vC03Collide))]
+	if r.chance(1, 3) {
+		g = append(append([]uint64{}, g...), vC03Collide[r.intn(len(vC03Collide))]...)
+	}
+	dir := r.intn(2)
+	kinds := map[uint64]int{}
+	var sent []uint64
+	for _, tid := range g {
+		if r.chance(1, 4) {
+			continue // not sent: a response for it must be an error
+		}
+		if tid == vC03One && r.chance(1, 2) {
+			es = append(es, vL(vZ(0), vI(dir), vC03PktSx(vC03GenPkt(r, 0, true, false))))
+			kinds[tid] = 1
+		} else {
+			p := vC03GenPkt(r, 3, true, false)
+			p.tid = tid
+			p.name = []byte("createStream")
+			es = append(es, vL(vZ(0), vI(dir), vC03PktSx(p)))
+			kinds[tid] = 4
+		}
+		sent = append(sent, tid)
+	}
+	// responses: every id of the group in random order, some twice
+	order := append([]uint64{}, g...)
+	for i := len(order) - 1; i > 0; i-- {
+		j := r.intn(i + 1)
+		order[i], order[j] = order[j], order[i]
+	}
+	if r.chance(1, 2) && len(order) > 0 {
+		order = append(order, order[r.intn(len(order))])
+	}
+	for _, tid := range order {
+		k := kinds[tid]
+		if k == 0 {
+			k = r.pickInt(1, 4)
+		}
+		p := vC03GenPkt(r, k, true, false)
+		p.tid = tid
+		if k == 4 {
+			p.name = []byte("_result")
+		}
+		es = append(es, vL(vZ(0), vI(1-dir), vC03PktSx(p)))
+		if r.chance(1, 5) {
+			es = append(es, vL(vZ(0), vI(dir), vC03PktSx(vC03GenPkt(r, r.pickInt(2, 5, 8), true, false))))
+		}
+	}
+	_ = sent
+	return vL(vZ(2), vLs(es))
+}
+
 func vC03GenHist(r *vRng) vSx {
+	if r.chance(1, 4) {
+		return vC03GenHistCollide(r)
+	}
 	var es []vSx
 	n := r.rng(1, 14)
 	pending := [][]uint64{nil, nil} // tids each endpoint has asked with (generator's bookkeeping only)
